@@ -221,12 +221,15 @@ def c17_oracle(case, obs):
                     if h is not None:
                         syn_arrives(h, o["src"], o["dst"])
         elif n in ("egress", "pump"):
+            # egress_all: every host folds its local packets back first (host order); what left the
+            # hosts is delivered afterwards, in the same order
+            wire = []
             for h in range(len(hosts)):
-                rest = deliver_local_or(h, n == "pump")
+                wire += deliver_local_or(h, n == "pump")
                 pending[h] = []
-                if n == "pump":
-                    for src, dst, tag in rest:
-                        deliver_udp(src, dst, tag)
+            for src, dst, tag in wire:
+                deliver_udp(src, dst, tag)
+            for h in range(len(hosts)):
                 for src, dst in syn_pending[h]:
                     if local_to(hosts, h, dst[0]):
                         syn_arrives(h, src, dst)
@@ -264,7 +267,22 @@ def c17_oracle(case, obs):
     return out
 
 
+def alloc_oracle(case, obs):
+    """a result is a port of the range that is not in use; None only when every port is in use"""
+    out = []
+    lo, hi = case["cfg"]["lo"], case["cfg"]["hi"]
+    for i, (used, r) in enumerate(zip(case["script"], obs["res"])):
+        if r == 0:
+            if len(set(used)) < hi - lo + 1:
+                out.append(("PortAllocator(%d..=%d) step %d: returned None although %s are free" % (lo, hi, i, sorted(set(range(lo, hi + 1)) - set(used))), None))
+        elif r in used or not (lo <= r <= hi):
+            out.append(("PortAllocator(%d..=%d) step %d: returned %d which is in use or outside the range (in use: %s)" % (lo, hi, i, r, used), None))
+    return out
+
+
 def c17_nontrivial(case, obs):
+    if case["mode"] == "alloc":
+        return True
     steps = obs.get("steps", [])
     rs = [s.get("r") for s in steps]
     return ("AddrInUse" in rs or "AddrNotAvailable" in rs) or any(s.get("got") and any(g[2] for g in s["got"]) for s in steps)
@@ -304,6 +322,8 @@ class Spec(PropSpec):
         dm = F.gen_demux_matrix()
         cases = (rng.sample(bm, 120) if q else bm) + dm
         cases += [F.gen_net(rng) for _ in range(260 * n)]
+        cases += [F.gen_wrap(rng) for _ in range(40 * n)]
+        cases += F.gen_alloc_exhaustive() + [F.gen_alloc(rng) for _ in range(60 * n)]
         return cases
 
     def to_model(self, case, obs):
@@ -313,7 +333,11 @@ class Spec(PropSpec):
         return F.compare(case, obs, model, probes)
 
     def oracle(self, case, obs):
-        if obs.get("panic") or "steps" not in obs:
+        if obs.get("panic"):
+            return []
+        if case["mode"] == "alloc":
+            return alloc_oracle(case, obs)
+        if "steps" not in obs:
             return []
         return c17_oracle(case, obs)
 
